@@ -212,16 +212,47 @@ theorem margBad_real (inp : FitInput ℝ) :
 
 /-! #### calibration maps -/
 
+section bridges
+/- The closing tactic is written to survive harmless rewrites of the Python formula (operand order,
+   sign conventions); some of its alternatives are therefore unused for the current source. -/
+set_option linter.unreachableTactic false
+set_option linter.unusedTactic false
+
+/-- bridge: what the generated Clayton `compute_theta` returns for `τ ≠ 1`, characterised by the
+equation `θ (1 − τ) = 2 τ`. -/
+theorem clayton_computeTheta_spec {τ : ℝ} (h : τ ≠ 1) :
+    ∃ θ : ℝ, Gen.Clayton.computeTheta τ = .ok (.fin θ) ∧ θ * (1 - τ) = 2 * τ := by
+  have h1 : 1 - τ ≠ 0 := sub_ne_zero.2 (Ne.symm h)
+  have h2 : τ - 1 ≠ 0 := sub_ne_zero.2 h
+  refine ⟨_, by
+    simp only [Gen.Clayton.computeTheta, beq_real, ofNat_real, Nat.cast_one, h, if_false]; rfl, ?_⟩
+  push_cast
+  first | (field_simp; done) | (field_simp; ring1)
+
+/-- bridge: Gumbel `compute_theta` for `τ ≠ 1`, characterised by `θ (1 − τ) = 1`. -/
+theorem gumbel_computeTheta_spec {τ : ℝ} (h : τ ≠ 1) :
+    ∃ θ : ℝ, Gen.Gumbel.computeTheta τ = .ok (.fin θ) ∧ θ * (1 - τ) = 1 := by
+  have h1 : 1 - τ ≠ 0 := sub_ne_zero.2 (Ne.symm h)
+  have h2 : τ - 1 ≠ 0 := sub_ne_zero.2 h
+  refine ⟨_, by
+    simp only [Gen.Gumbel.computeTheta, beq_real, ofNat_real, Nat.cast_one, h, if_false]; rfl, ?_⟩
+  push_cast
+  first | (field_simp; done) | (field_simp; ring1)
+
+end bridges
+
 theorem clayton_computeTheta_of_ne_one {τ : ℝ} (h : τ ≠ 1) :
     Gen.Clayton.computeTheta τ = .ok (.fin (2 * τ / (1 - τ))) := by
-  simp [Gen.Clayton.computeTheta, h]
-
-theorem clayton_computeTheta_one : Gen.Clayton.computeTheta (1 : ℝ) = .ok .posInf := by
-  simp [Gen.Clayton.computeTheta]
+  obtain ⟨θ, hθ, hv⟩ := clayton_computeTheta_spec h
+  rw [hθ, (eq_div_iff (sub_ne_zero.2 (Ne.symm h))).2 hv]
 
 theorem gumbel_computeTheta_of_ne_one {τ : ℝ} (h : τ ≠ 1) :
     Gen.Gumbel.computeTheta τ = .ok (.fin (1 / (1 - τ))) := by
-  simp [Gen.Gumbel.computeTheta, h]
+  obtain ⟨θ, hθ, hv⟩ := gumbel_computeTheta_spec h
+  rw [hθ, (eq_div_iff (sub_ne_zero.2 (Ne.symm h))).2 hv]
+
+theorem clayton_computeTheta_one : Gen.Clayton.computeTheta (1 : ℝ) = .ok .posInf := by
+  simp [Gen.Clayton.computeTheta]
 
 theorem gumbel_computeTheta_one : Gen.Gumbel.computeTheta (1 : ℝ) = .error .valueError := by
   simp [Gen.Gumbel.computeTheta]
@@ -437,7 +468,7 @@ theorem frank_residual_zero_iff (quad : (ℝ → ℝ) → ℝ → ℝ → ℝ) (
     Gen.Frank.tauResidual quad ε τ a = 0 ↔
       1 + 4 * (quad Gen.Frank.debyeIntegrand ε a / a - 1) / a = τ := by
   simp only [Gen.Frank.tauResidual, ofNat_real, Nat.cast_ofNat, Nat.cast_one]
-  constructor <;> intro h <;> linarith
+  constructor <;> intro h <;> linear_combination h
 
 theorem debyeIntegrand_eq (t : ℝ) : Gen.Frank.debyeIntegrand t = t / (Real.exp t - 1) := by
   simp [Gen.Frank.debyeIntegrand]
